@@ -168,6 +168,50 @@ def plugin_checks(factory_name, script_arg, object_class_file, object_class, ini
     return setup, checks
 
 
+# SuitKMS.parse_context: where the keys are looked up.  No context -> the directory of the KMS script; a context that names an existing directory -> that
+# directory; otherwise the context is JSON and the directory is EXACTLY its "keys_directory" member (not joined with anything: a relative path stays relative to
+# the working directory); anything else is refused with ValueError.  (json.loads of the symbolic context text: JSONDecodeError or SOME JSON value that is a function of the
+# text; the member is read off that value.)  The bounded stand-in signs with all three context forms beside it.
+def _parse_context_checks(it, ctx):
+    from pyvc.values import VNone, VLib, VStr
+    if ctx.outcome != "return":
+        return None
+    kd = ctx.arg("self").attrs.get("keys_directory")
+    if not (isinstance(kd, VLib) and kd.kind == "Path"):
+        return [("keys_directory_is_a_path", z3.BoolVal(False))]
+    got = kd.f["s"]
+    context = ctx.arg("context")
+    loads = [t for t in it.trace if t[0] == "json.loads"]
+    if isinstance(context, VNone):
+        return [("no_context_reads_no_json", z3.BoolVal(not loads))]  # (the default is the directory of the KMS script: Path(__file__).parent, an ambient constant)
+    if not loads:
+        return [("a_directory_context_is_used_as_it_is", got.e == context.e)]
+    member = None
+    v = loads[0][2]
+    from pyvc import plain
+    try:
+        member = plain.dict_getitem(it, plain.resolve(it, v), VStr("keys_directory")) if not hasattr(v, "entries") else v.entries["keys_directory"].value
+    except Exception:  # noqa: BLE001
+        member = None
+    if member is not None and hasattr(member, "kind") and not isinstance(member, VStr):
+        try:
+            member = plain.resolve(it, member)
+        except Exception:  # noqa: BLE001
+            pass
+    return [("json_context_parsed_from_the_given_text", loads[0][1].e == context.e),
+            ("keys_directory_is_exactly_the_json_member", z3.BoolVal(False) if not isinstance(member, VStr) else got.e == member.e)]
+
+
+c = Contract(FK, "SuitKMS.parse_context", ["C04", "C06"])
+c.param("self", Obj(FK, "SuitKMS"))
+c.param("context", Opt(Str()))
+c.variants = [("context", {})]
+c.check("directory", _parse_context_checks)
+c.modifies(**{"self.keys_directory": Lib("Path", s=Str())})
+c.raises("ValueError")
+c.raises("TypeError")  # a JSON context that is not an object (e.g. '5', '[1]') is subscripted with a str: TypeError escapes (observation; no property clause covers it)
+c.callers_inline = True
+
 c = Contract(FS, "Signer.init_kms_backend", ["C04", "C09"])
 c.param("self", Obj(FS, "Signer", _context=Str()))
 c.param("kms_script", Str())
@@ -308,6 +352,19 @@ def bounded(ctx):
             B.case((alg, kid), sample=case)
             if msg:
                 B.fail("signed-output-is-input-plus-one-valid-block", case, msg)
+    # the three ways of naming the key directory to the KMS: a directory path, a JSON context with an absolute path, a JSON context with a path RELATIVE to
+    # the working directory - the key that signs is <that directory>/<key name>.pem in every form
+    for form in ("json-absolute", "json-relative"):
+        S.CONTEXT_FORM["form"] = form
+        try:
+            for alg in ("es-256", "eddsa"):
+                env = S.make_envelope(f"ctx{form}", seed=5, payloads=[("#p", b"\x01")], extra=True)
+                msg, _ = S.check_single(front.REPO, d, keys, env, alg, 9)
+                B.case(("context-form", form, alg))
+                if msg:
+                    B.fail("signed-output-is-input-plus-one-valid-block", {"alg": alg, "key_id": 9, "context_form": form}, f"context given as {form}: {msg}")
+        finally:
+            S.CONTEXT_FORM["form"] = "path"
     for alg in ("es-256", "es-384", "es-521"):
         for i in range(reps):
             if B.out_of_time():
@@ -330,7 +387,11 @@ def replay_case(case):
         d = B.fresh_dir("keys")
         keys = S.make_keys(d)
         env = S.make_envelope("replay", seed=1, payloads=[("#p", b"\x01")], extra=True)
-        msg, _ = S.check_single(front.REPO, d, keys, env, case["alg"], case["key_id"])
+        S.CONTEXT_FORM["form"] = case.get("context_form", "path")
+        try:
+            msg, _ = S.check_single(front.REPO, d, keys, env, case["alg"], case["key_id"])
+        finally:
+            S.CONTEXT_FORM["form"] = "path"
         return msg is None, msg
     finally:
         B.done()
